@@ -8,7 +8,9 @@ Inductive op :=
 | ODeqM (p : bits)
 | ORemove (ks : list qkey)
 | OClear
-| ORestart            (* Persist into an empty datastore, DrainDatastore into a fresh queue *)
+| ORestart            (* Persist into the datastore, DrainDatastore into a fresh queue *)
+| OPersist            (* Persist into the datastore (which may hold an older snapshot) *)
+| ODrain              (* restart without persisting: a fresh queue drains whatever the datastore holds *)
 (* ReprovideQueue *)
 | REnq (ps : list bits)
 | RDeq
@@ -34,30 +36,34 @@ Fixpoint ins_N (x : N) (l : list N) : list N :=
 Definition sort_N (l : list N) : list N := fold_right ins_N [] l.
 Definition ids_of (ks : list qkey) : list N := sort_N (map kid ks).
 
-Record st := { s_pv : pvq; s_rq : pq }.
-Definition st0 : st := {| s_pv := pvq_empty; s_rq := pq_empty |}.
+(* [s_ds]: the rows of the datastore the queue persists to; Persist replaces them all *)
+Record st := { s_pv : pvq; s_rq : pq; s_ds : list row }.
+Definition st0 : st := {| s_pv := pvq_empty; s_rq := pq_empty; s_ds := [] |}.
 
 Definition step (s : st) (o : op) : res (st * obs) :=
   match o with
-  | OEnq p ks => q <- enqueue (s_pv s) p ks ;; Ok ({| s_pv := q; s_rq := s_rq s |}, BNone)
+  | OEnq p ks => q <- enqueue (s_pv s) p ks ;; Ok ({| s_pv := q; s_rq := s_rq s; s_ds := s_ds s |}, BNone)
   | ODeq =>
       match dequeue (s_pv s) with
-      | (q, None) => Ok ({| s_pv := q; s_rq := s_rq s |}, BNone)
-      | (q, Some (p, ks)) => Ok ({| s_pv := q; s_rq := s_rq s |}, BPref p (ids_of ks))
+      | (q, None) => Ok ({| s_pv := q; s_rq := s_rq s; s_ds := s_ds s |}, BNone)
+      | (q, Some (p, ks)) => Ok ({| s_pv := q; s_rq := s_rq s; s_ds := s_ds s |}, BPref p (ids_of ks))
       end
   | ODeqM p => r <- dequeue_matching (s_pv s) p ;;
-               Ok ({| s_pv := fst r; s_rq := s_rq s |}, BIds (ids_of (snd r)))
-  | ORemove ks => q <- remove_keys (s_pv s) ks ;; Ok ({| s_pv := q; s_rq := s_rq s |}, BNone)
-  | OClear => let (q, n) := pvq_clear (s_pv s) in Ok ({| s_pv := q; s_rq := s_rq s |}, BNum n)
+               Ok ({| s_pv := fst r; s_rq := s_rq s; s_ds := s_ds s |}, BIds (ids_of (snd r)))
+  | ORemove ks => q <- remove_keys (s_pv s) ks ;; Ok ({| s_pv := q; s_rq := s_rq s; s_ds := s_ds s |}, BNone)
+  | OClear => let (q, n) := pvq_clear (s_pv s) in Ok ({| s_pv := q; s_rq := s_rq s; s_ds := s_ds s |}, BNum n)
   | ORestart => r <- drain pvq_empty (persist (s_pv s)) ;;
-                Ok ({| s_pv := fst r; s_rq := s_rq s |}, BNum (length (snd r)))
-  | REnq ps => q <- push (s_rq s) ps ;; Ok ({| s_pv := s_pv s; s_rq := q |}, BNone)
+                Ok ({| s_pv := fst r; s_rq := s_rq s; s_ds := snd r |}, BNum (length (snd r)))
+  | OPersist => Ok ({| s_pv := s_pv s; s_rq := s_rq s; s_ds := persist (s_pv s) |}, BNum (length (persist (s_pv s))))
+  | ODrain => r <- drain pvq_empty (s_ds s) ;;
+              Ok ({| s_pv := fst r; s_rq := s_rq s; s_ds := snd r |}, BNum (length (snd r)))
+  | REnq ps => q <- push (s_rq s) ps ;; Ok ({| s_pv := s_pv s; s_rq := q; s_ds := s_ds s |}, BNone)
   | RDeq => match pop (s_rq s) with
-            | (q, None) => Ok ({| s_pv := s_pv s; s_rq := q |}, BNone)
-            | (q, Some p) => Ok ({| s_pv := s_pv s; s_rq := q |}, BPref p [])
+            | (q, None) => Ok ({| s_pv := s_pv s; s_rq := q; s_ds := s_ds s |}, BNone)
+            | (q, Some p) => Ok ({| s_pv := s_pv s; s_rq := q; s_ds := s_ds s |}, BPref p [])
             end
-  | RRemove p => r <- pq_remove (s_rq s) p ;; Ok ({| s_pv := s_pv s; s_rq := fst r |}, BBool (snd r))
-  | RClear => let (q, n) := pq_clear (s_rq s) in Ok ({| s_pv := s_pv s; s_rq := q |}, BNum n)
+  | RRemove p => r <- pq_remove (s_rq s) p ;; Ok ({| s_pv := s_pv s; s_rq := fst r; s_ds := s_ds s |}, BBool (snd r))
+  | RClear => let (q, n) := pq_clear (s_rq s) in Ok ({| s_pv := s_pv s; s_rq := q; s_ds := s_ds s |}, BNum n)
   end.
 
 Definition is_reprovide_op (o : op) : bool :=
